@@ -41,7 +41,17 @@ End Fast.
 Section HashedFast.
   Variable H : bytes -> bytes.
 
-  Definition shuffle_fast {A} (s : list A) (h : bytes) : list A := F_fast s (qseq H h (length s)).
+  (* F.2 evaluated block-wise: one hash per eight numbers *)
+  Definition block_words (hb : bytes) : list N :=
+    map (fun j => le_dec (firstn 4 (skipn (4 * j) hb))) (seq 0 8).
+  Fixpoint blocks (h : bytes) (b : N) (k : nat) : list N :=
+    match k with
+    | O => []
+    | S k' => block_words (H (h ++ le_enc 4 b)) ++ blocks h (b + 1) k'
+    end.
+  Definition qseq_fast (h : bytes) (l : nat) : list N := firstn l (blocks h 0 (Nat.div (l + 7) 8)).
+
+  Definition shuffle_fast {A} (s : list A) (h : bytes) : list A := F_fast s (qseq_fast h (length s)).
 
   (* P(e, t) for a run of slots sharing the entropy: the shuffle is evaluated once *)
   Definition assign_slots (p : Params) (e : bytes) (ts : list N) : list (list N) :=
